@@ -1,9 +1,21 @@
 #!/usr/bin/env python3
-"""Prints a markdown table of the seeded changes filed under /verif/seeded."""
-import glob, json, os
+"""Prints a markdown table of the seeded changes filed under /verif/seeded.
+
+  tools/seeded_report.py            full table (long cells)
+  tools/seeded_report.py --design   compact table; with --splice it is written
+                                    between the SEEDED-TABLE markers of DESIGN.md
+"""
+import glob, json, os, sys
 root = os.path.dirname(os.path.dirname(os.path.abspath(__file__)))
-print('| property | change | what was changed | needs | caught by (first clauses) |')
-print('|---|---|---|---|---|')
+design = '--design' in sys.argv
+lines = []
+if design:
+  lines.append('| property | change | what was changed (needs → see meta.json) | caught by (first clauses) | first run |')
+  lines.append('|---|---|---|---|---|')
+else:
+  lines.append('| property | change | what was changed | needs | caught by (first clauses) |')
+  lines.append('|---|---|---|---|---|')
+n = missed = undetected = 0
 for m in sorted(glob.glob(os.path.join(root, 'seeded', '*', '*', 'meta.json'))):
   d = json.load(open(m))
   v = d.get('verification', {})
@@ -15,7 +27,28 @@ for m in sorted(glob.glob(os.path.join(root, 'seeded', '*', '*', 'meta.json'))):
       c = l.split('check=')[1].split(' ')[0] + ':' + l.split('clause=')[1].split(' ')[0]
       if c not in clauses:
         clauses.append(c)
-  det = ', '.join(f'`{c}`' for c in clauses[:3]) if v.get('detected') else '**not detected**'
-  summ = d.get('summary', '').replace('|', '/').replace('\n', ' ')[:230]
-  needs = d.get('needs', '').replace('|', '/').replace('\n', ' ')[:200]
-  print(f'| {pid} | {name} | {summ} | {needs} | {det} |')
+  n += 1
+  if d.get('initially_missed'):
+    missed += 1
+  if not v.get('detected'):
+    undetected += 1
+  det = ', '.join(f'`{c}`' for c in clauses[:(2 if design else 3)]) if v.get('detected') else '**not detected**'
+  summ = d.get('summary', '').replace('|', '/').replace('\n', ' ')
+  needs = d.get('needs', '').replace('|', '/').replace('\n', ' ')
+  if design:
+    first = ('missed → ' + d.get('strengthening', '').replace('|', '/').replace('\n', ' ')[:160]) if d.get('initially_missed') else 'caught'
+    lines.append(f'| {pid} | {name} | {summ[:200]} | {det} | {first} |')
+  else:
+    lines.append(f'| {pid} | {name} | {summ[:230]} | {needs[:200]} | {det} |')
+lines.append('')
+lines.append(f'{n} seeded changes filed; {missed} were missed by the checks as they stood when the change '
+             f'arrived and led to a strengthening; {undetected} are not detected now.')
+text = '\n'.join(lines)
+if '--splice' in sys.argv:
+  p = os.path.join(root, 'DESIGN.md')
+  s = open(p).read()
+  b, e = '<!-- SEEDED-TABLE-BEGIN -->', '<!-- SEEDED-TABLE-END -->'
+  i, j = s.index(b) + len(b), s.index(e)
+  open(p, 'w').write(s[:i] + '\n' + text + '\n' + s[j:])
+else:
+  print(text)
